@@ -188,6 +188,11 @@ public:
 		LogStatus = logger::Debug2,
 		LogAction = logger::Info
 	};
+private:
+	/* disable copy: a copy would share the command table and the fallback handler,
+	 * both destructors would then send the end-of-life notifications */
+	dispatch(const dispatch &);
+	dispatch & operator =(const dispatch &);
 protected:
 #else
 MPT_STRUCT(dispatch)
